@@ -24,7 +24,7 @@ func init() {
 		Cases: func(t string) int { return tierN(t, 160, 2400) },
 		Run:   runC01,
 		Rule: "case = one history: 1-2 files of 1-40 chunks (chunk size 1/16/1024, replication 1-4), 2 honest and 2-3 dishonest accounts, 10-24 proof submissions drawn from 14 payload classes (honest control + 13 mutation classes), every submission followed by reward blocks with live gauges; " +
-			"oracle per submission: reference verifier (independent Merkle/leaf implementation + challenge read through the Proof query just before) says invalid => (File.Proofs, all ProofsByAddress(signer), signer balance) digest unchanged and Success=false; per reward block: hooked counted bytes of every prover <= bytes of files it has validly proven at least once, storage-module payees subset of validly-proven provers; " +
+			"oracle per submission: reference verifier (independent Merkle/leaf implementation + challenge read through the Proof query just before) says invalid => (File.Proofs, all ProofsByAddress(signer), signer balance) digest unchanged and Success=false; per reward block: hooked counted bytes of every prover <= bytes of files it has validly proven at least once and <= bytes of files whose last accepted valid proof (by the monitor's own record) lies in the previous full window or later, storage-module payees subset of validly-proven provers; " +
 			"non-trivial signature = payload class x {newcomer,listed} x {room,full} of a reference-invalid submission that was followed by a reward block releasing tokens",
 		Assumptions: []string{
 			"SHA-256 / SHA3-512 collision resistance (a payload that the reference verifier rejects cannot verify on chain by accident)",
@@ -36,9 +36,10 @@ func init() {
 
 type c01World struct {
 	*SW
-	validEver map[string]map[string]bool // prover -> file key -> ever validly proven
-	lastProof map[string][3][]byte       // prover|file -> last honest (item, hashlist, idx-as-bytes)
-	pending   []string                   // non-trivial signatures waiting for a paying reward block
+	validEver map[string]map[string]bool  // prover -> file key -> ever validly proven
+	lastValid map[string]map[string]int64 // prover -> file key -> height of the last valid proof the chain accepted
+	lastProof map[string][3][]byte        // prover|file -> last honest (item, hashlist, idx-as-bytes)
+	pending   []string                    // non-trivial signatures waiting for a paying reward block
 }
 
 func (w *c01World) digest(signer string, wf *WFile) string {
@@ -79,7 +80,7 @@ func runC01(rc *RunCtx) {
 		return
 	}
 	defer c.Close()
-	w := &c01World{SW: &SW{rc: rc, c: c}, validEver: map[string]map[string]bool{}, lastProof: map[string][3][]byte{}}
+	w := &c01World{SW: &SW{rc: rc, c: c}, validEver: map[string]map[string]bool{}, lastValid: map[string]map[string]int64{}, lastProof: map[string][3][]byte{}}
 	dts := []time.Duration{time.Hour, 24 * time.Hour, 6 * time.Second, 3 * time.Hour}
 	rewardSeen := 0
 	step := func() bool {
@@ -99,14 +100,28 @@ func runC01(rc *RunCtx) {
 		rewardSeen++
 		// bytes a prover may legitimately be counted for
 		for p, got := range ro.Counted {
-			var allowed int64
+			var allowed, fresh int64
 			for _, f := range ro.Pre.Files {
 				if w.validEver[p][fileKey(f)] {
 					allowed += f.FileSize
+					// still credited only while its valid proofs keep coming: the last one the chain accepted must lie in
+					// the previous full proof window or later (or the file is still in its first window)
+					lv := w.lastValid[p][fileKey(f)]
+					W := f.ProofInterval
+					for _, wf := range w.Files { // the proof window of a file is the network parameter at post time, whatever the client asked for
+						if wf.Key() == fileKey(f) && wf.Window > 0 {
+							W = wf.Window
+						}
+					}
+					if W <= 0 || ro.Height <= f.Start+W || lv >= f.Start+((ro.Height-f.Start)/W-1)*W {
+						fresh += f.FileSize
+					}
 				}
 			}
 			if got > allowed {
 				rc.Fail("C01/counted-without-valid-proof", "h=%d: prover %s counted for %d bytes at the reward block but has validly proven files totalling only %d bytes", ro.Height, p, got, allowed)
+			} else if got > fresh {
+				rc.Fail("C01/credited-after-proofs-lapsed", "h=%d: prover %s counted for %d bytes at the reward block, but the files for which its last accepted valid proof is recent enough total only %d bytes", ro.Height, p, got, fresh)
 			}
 		}
 		for acct, coins := range ro.Paid {
@@ -146,6 +161,9 @@ func runC01(rc *RunCtx) {
 		nch := int64(1 + rc.Intn(40))
 		size := (nch-1)*chunk + 1 + int64(rc.Intn(int(chunk)))
 		f := gen.NewFile(randBytes(rc.Rng, size), chunk)
+		if rc.Chance(0.4) {
+			w.ReqProofInterval = []int64{1, 2, W - 1, W + 1, 1000, 1 << 40, -5}[rc.Intn(7)]
+		}
 		if _, r := w.PostFile(0, f, int64(1+rc.Intn(4)), 0, -1); !r.OK() {
 			rc.Abort("post: " + r.Log)
 			return
@@ -357,6 +375,10 @@ func (w *c01World) submit(signer int, wf *WFile, class string) {
 				w.validEver[addr] = map[string]bool{}
 			}
 			w.validEver[addr][wf.Key()] = true
+			if w.lastValid[addr] == nil {
+				w.lastValid[addr] = map[string]int64{}
+			}
+			w.lastValid[addr][wf.Key()] = c.Height
 			w.lastProof[addr+"|"+wf.Key()] = [3][]byte{item, hl, []byte(fmt.Sprint(toProve))}
 		} else {
 			rc.Count("ref_valid_rejected", 1)
